@@ -17,6 +17,21 @@ MEM_VARIANTS = ("Absolute", "AbsoluteX", "AbsoluteY")
 _cache = {}
 
 
+def protecting_wrappers(facts):
+    """Functions of the generator whose body is `self.protected = true; <one emission through asm/sasm>; self.protected = false; ..`"""
+    out = {}
+    for f in facts.fns:
+        if GEN_QUAL not in f["qual"]:
+            continue
+        t = [expr_text(s0).replace(" ", "") for s0 in (f["body"].get("stmts") or [])]
+        if len(t) >= 3 and t[0] == "self.protected=true" and any(x == "self.protected=false" for x in t[1:]):
+            i_false = t.index("self.protected=false")
+            emits = [x for x in t[1:i_false] if "self.asm(" in x or "self.sasm(" in x]
+            if len(emits) == 1 and not any(("self.asm(" in x or "self.sasm(" in x) for x in t[i_false:]):
+                out[f["name"]] = t
+    return out
+
+
 def asm_sites(facts):
     """All emission sites of the generator: list of dicts
     {fn, kind, mn: set|None, op: set|None, opval, node, state, protected}"""
@@ -26,11 +41,21 @@ def asm_sites(facts):
     sites = []
     all_mn = set(facts.enum_variants("AsmMnemonic"))
     RS, PS, FS, variants_of = variant_flow(facts)
+    wrappers = {k for k in protecting_wrappers(facts) if k != "sasm_protected"}
     for fn in gen_fns(facts):
-        if fn["name"] in ("asm", "sasm", "sasm_protected", "new"):
+        if fn["name"] in ("asm", "sasm", "sasm_protected", "new") or fn["name"] in wrappers:
             continue
         for kind, value, st in fn_paths(facts, fn):
             for ev in st.events:
+                if ev["kind"] == "call" and ev.get("callee") in wrappers and ev.get("args"):
+                    # a verified `protected = true; asm(mnemonic, operand, pos, false); protected = false` wrapper: the emission happens
+                    # here, protected, with this call's mnemonic and operand
+                    a = ev["args"]
+                    mn = domain_of(st, a[0], facts, universe=all_mn)
+                    opv = a[1] if len(a) > 1 else None
+                    sites.append({"fn": fn, "kind": "asm", "mn": mn, "op": variants_of(opv, st, fn["name"]) if opv is not None else None, "opval": opv,
+                                  "hb": {False}, "node": ev["node"], "state": st, "protected": Const(True), "exit": kind, "exit_value": value})
+                    continue
                 if ev["kind"] not in ("asm", "sasm", "sasm_protected"):
                     continue
                 args = ev["args"]
